@@ -166,8 +166,9 @@ def _impl(ctx, quick, rng, f_build, witness_runs=()):
     # GOSSIP_STRICT_GAPS=1: the named gaps observed at rest are reported as violations (to obtain replay files that show
     # each gap on the real code); normally they are listed in the evidence only
     strict = os.environ.get("GOSSIP_STRICT_GAPS") == "1"
-    v = core.validate_traces(ctx, "TMGossipTrace", rows, cfg="TMGossipTrace_strict.cfg" if strict else None, max_events=2500,
-                             timeout=1800, label="gossip")
+    # GOSSIP_TRACE_CFG: another trace cfg (TMGossipTrace_fixedG6.cfg judges a tree with proposed-fixes/GOSSIP-pol-shadowed.diff)
+    tcfg = os.environ.get("GOSSIP_TRACE_CFG") or ("TMGossipTrace_strict.cfg" if strict else None)
+    v = core.validate_traces(ctx, "TMGossipTrace", rows, cfg=tcfg, max_events=2500, timeout=1800, label="gossip")
     return r_cases, cs, cases, nsched, rows, runs, v
 
 
